@@ -119,7 +119,8 @@ fn b64(bytes: &[u8]) -> String {
   base64::encode(bytes)
 }
 
-const MALFORMED: [&str; 50] = [
+const MALFORMED: [&str; 51] = [
+  "tck_scale_beyond_precision",
   "add_b64_damaged",
   "add_b64_damaged",
   "tck_odd_input_shape",
@@ -251,7 +252,10 @@ fn builtin_on_odd_values(seed: u64) -> String {
   }
 }
 
-const ODD_CONTEXTS: [&str; 30] = [
+const ODD_CONTEXTS: [&str; 32] = [
+  // a null that carries the texts of two nulls that carry the texts of two nulls ...: thirty entries
+  "{a0: \"x\" - 1, a1: a0 - a0, a2: a1 - a1, a3: a2 - a2, a4: a3 - a3, a5: a4 - a4, a6: a5 - a5, a7: a6 - a6, a8: a7 - a7, a9: a8 - a8, a10: a9 - a9, a11: a10 - a10, a12: a11 - a11, a13: a12 - a12, a14: a13 - a13, a15: a14 - a14, a16: a15 - a15, a17: a16 - a16, a18: a17 - a17, a19: a18 - a18, a20: a19 - a19, a21: a20 - a20, a22: a21 - a21, a23: a22 - a22, a24: a23 - a23, a25: a24 - a24, a26: a25 - a25, a27: a26 - a26, a28: a27 - a27, a29: a28 - a28, s: string(a29)}",
+  "{a0: \"x\" / 1, a1: a0 / a0, a2: a1 / a1, a3: a2 / a2, a4: a3 / a3, a5: a4 / a4, a6: a5 / a5, a7: a6 / a6, a8: a7 / a7, a9: a8 / a8, a10: a9 / a9, a11: a10 / a10, a12: a11 / a11, a13: a12 / a12, a14: a13 / a13, a15: a14 / a14, a16: a15 / a15, a17: a16 / a16, a18: a17 / a17, a19: a18 / a18, a20: a19 / a19, a21: a20 / a20, a22: a21 / a21, a23: a22 / a22, a24: a23 / a23, a25: a24 / a24, a26: a25 / a25, a27: a26 / a26, a28: a27 / a27, a29: a28 / a28, s: string(a29)}",
   // a function that invokes itself for ever (an entry of a context literal sees itself)
   "{f: function(n) f(n + 1), s: string(f(1))}",
   "{f: function(n) if n < 0 then 0 else 1 + f(n + 1), s: string(f(1))}",
@@ -709,6 +713,26 @@ fn build_request(s: &Setup, r: &Value) -> Built {
             label: format!("{} shape {}", label, pu64(r, "n") % 10),
           }
         }
+        // a decision that rounds its input to a scale the 34 digits of a decimal number cannot hold: what `decimal`
+        // returns then is the implementation's business (null, or a number that is not finite); whatever it is, the
+        // answer must be well-formed and - rule tck-value-not-readable - a value the service itself can read
+        "tck_scale_beyond_precision" => {
+          let mut g = Rng::new(pu64(r, "g") ^ 0x5ca1e);
+          let digits = 28 + g.index(7);
+          let n: String = (0..digits).map(|i| char::from(b'0' + if i == 0 { 1 + g.index(9) } else { g.index(10) } as u8)).collect();
+          let n = if g.chance(1, 3) { format!("-{}", n) } else { n };
+          let sc = 8 + g.index(20);
+          Built {
+            method: "POST",
+            path: "/tck/evaluate".into(),
+            content_type: js,
+            body: json!({"model": model_name(m), "invocable": "scale_n", "input": [
+              {"name": "n", "value": {"simple": {"type": "xsd:decimal", "text": n, "isNil": false}}},
+              {"name": "sc", "value": {"simple": {"type": "xsd:decimal", "text": sc.to_string(), "isNil": false}}}]}).to_string().into_bytes(),
+            op: Op::EvalAny(model_name(m)),
+            label: label.clone(),
+          }
+        }
         "tck_number_with_nul" => {
           let xsd_type = ["xsd:decimal", "xsd:integer", "xsd:double"][(pu64(r, "n") % 3) as usize];
           Built {
@@ -1108,6 +1132,21 @@ fn classify_response(op: &Op, label: &str, resp: &Resp, seq: u64) -> Result<Resp
       ))
     }
   };
+  // a value answered in TCK form is a value the service itself can read: every simple leaf that is not nil
+  // carries a text its own reader of that type accepts
+  if let RespClass::Data(d) = &class {
+    if let Some(v) = d.get("value") {
+      if let Err((ty, text)) = tck_leaves_readable(v) {
+        return Err(viol(
+          "tck-value-not-readable",
+          &format!("{}:{}", op.kind(), ty),
+          seq,
+          format!("every simple value of the answer to `{}` can be read back by the service (Value::try_from_xsd_...)", label),
+          format!("{} {:?} is refused; body: {}", ty, text, short(&resp.body)),
+        ));
+      }
+    }
+  }
   if let (Op::Echo(_, val, tck), RespClass::Data(d)) = (op, &class) {
     let r = if *tck {
       match d.get("value") {
@@ -1128,6 +1167,45 @@ fn classify_response(op: &Op, label: &str, resp: &Resp, seq: u64) -> Result<Resp
     }
   }
   Ok(class)
+}
+
+/// Walks a value in TCK form and hands every simple leaf that is not nil to the reader of its type
+/// (the code under test); the first leaf that is refused is returned as (type, text).
+fn tck_leaves_readable(j: &J) -> Result<(), (String, String)> {
+  use dmntk_feel::values::Value as F;
+  if let Some(simple) = j.get("simple").filter(|s| **s != J::Null) {
+    if simple.get("isNil") != Some(&J::Bool(true)) {
+      if let (Some(J::Str(ty)), Some(J::Str(text))) = (simple.get("type"), simple.get("text")) {
+        let read = std::panic::catch_unwind(|| match ty.as_str() {
+          "xsd:integer" => F::try_from_xsd_integer(text).is_ok(),
+          "xsd:decimal" => F::try_from_xsd_decimal(text).is_ok(),
+          "xsd:double" => F::try_from_xsd_double(text).is_ok(),
+          "xsd:boolean" => F::try_from_xsd_boolean(text).is_ok(),
+          "xsd:date" => F::try_from_xsd_date(text).is_ok(),
+          "xsd:time" => F::try_from_xsd_time(text).is_ok(),
+          "xsd:dateTime" => F::try_from_xsd_date_time(text).is_ok(),
+          "xsd:duration" => F::try_from_xsd_duration(text).is_ok(),
+          _ => true,
+        });
+        if !matches!(read, Ok(true)) {
+          return Err((ty.clone(), text.clone()));
+        }
+      }
+    }
+  }
+  if let Some(J::Arr(items)) = j.get("list").and_then(|l| l.get("items")) {
+    for i in items {
+      tck_leaves_readable(i)?;
+    }
+  }
+  if let Some(J::Arr(components)) = j.get("components") {
+    for c in components {
+      if let Some(v) = c.get("value") {
+        tck_leaves_readable(v)?;
+      }
+    }
+  }
+  Ok(())
 }
 
 struct WorkerCtx {
@@ -2105,7 +2183,7 @@ fn loopback_script(seed: u64) -> Vec<Value> {
   // the real server has no probe that ends a runaway recursion: those two bodies (the open known finding)
   // would overflow the stack of a worker and end the server process and with it this pass
   for r in script.iter_mut() {
-    if pstr(r, "what") == "eval_odd_builtin_arguments" && pu64(r, "n") as usize % ODD_CONTEXTS.len() < 2 {
+    if pstr(r, "what") == "eval_odd_builtin_arguments" && (2..4).contains(&(pu64(r, "n") as usize % ODD_CONTEXTS.len())) {
       r["n"] = json!(pu64(r, "n") + 2);
     }
   }
